@@ -17,7 +17,15 @@ mkwork
 fail_build() { echo "INCONCLUSIVE property=$PROP reason=build ($1)"; exit 2; }
 stage_legacy || fail_build stage
 write_gomod || fail_build gomod
-build_harness "$WORK/bin/jpverif" > "$WORK/build.log" 2>&1 || { cat "$WORK/build.log"; fail_build harness; }
+# Thorough runs (and VERIF_COVER=1) use a coverage-instrumented build of the harness: the evidence then
+# lists which statements of the library the workload executed. Verdicts do not depend on it.
+COVER=()
+if [ "$PROP" != "replay" ] && { [ "$TIER" = "thorough" ] || [ -n "${VERIF_COVER:-}" ]; }; then
+  COVER=(-cover -coverpkg=github.com/evanphx/json-patch/v5/...,github.com/evanphx/json-patch)
+  export GOCOVERDIR="$WORK/cov"; mkdir -p "$GOCOVERDIR"
+fi
+export JPV_PROPERTIES="$VERIF_DIR/properties.jsonl"
+build_harness "$WORK/bin/jpverif" "${COVER[@]}" > "$WORK/build.log" 2>&1 || { cat "$WORK/build.log"; fail_build harness; }
 
 if [ "$PROP" = "replay" ]; then
   FILE="$2"
